@@ -1030,6 +1030,11 @@ X_NoStaleEndpoint == \A g \in Filters : (OutBal[g] /\ Alive(g) /\ ~Closing(g)) =
                         \A r \in plog[g] : (r.mid = minSend[g] - 1 /\ r.i = inc[g]) =>
                                               \E n \in 1..Len(clients[g]) : OutOf(clients[g][n].c) \in r.outs
 
+\* a sender has dropped a client as timed out (another consumer's request made it look) and that consumer is running again,
+\* connected, and not yet registered anew
+X_NoLiveEviction == \A c \in Conns : (linkUp[c] /\ Runs(c[1]) /\ Alive(PubOf(c)) /\ Eph(c) < 2 /\ prevId[c[1]] >= 0)
+                                       => HasClient(clients[PubOf(c)], c, inc[c[1]]) \/ pc[PubOf(c)] \in {"gen", "work_s", "s_enter"}
+
 \* no filter dies of a RuntimeError raised by the protocol code itself
 NoCrash == \A f \in Filters : pc[f] # "crashed"
 
